@@ -151,9 +151,9 @@ func buildP4(c bcfg, which string) []byte {
 			disp = append(disp, f)
 		}
 		m.Elems = []wb.Elem{
-			{Mode: 1, Funcs: []uint32{fa}},                          // passive segment 0
-			{TableIdx: tS, Offset: wb.CI32(0), Funcs: disp},        // dispatch region of ST: slot 0 canary, 1.. operations
-			{Mode: 2, Funcs: []uint32{fIdL, fb}},                    // declarative: ref.func targets
+			{Mode: 1, Funcs: []uint32{fa}},                  // passive segment 0
+			{TableIdx: tS, Offset: wb.CI32(0), Funcs: disp}, // dispatch region of ST: slot 0 canary, 1.. operations
+			{Mode: 2, Funcs: []uint32{fIdL, fb}},            // declarative: ref.func targets
 		}
 		m.Datas = []wb.Data{{Passive: true, Bytes: []byte{0x4C, 0x4D}}}
 		addViews(m, 3)
